@@ -285,3 +285,24 @@ def tlc_generate(module, cfg_text, tag, simulate=None, seed=1, timeout=900, work
         return out, parse_tlc_stats(r.stdout)
     finally:
         shutil.rmtree(d, ignore_errors=True)
+
+
+# ------------------------------------------------------------------- TLAPS
+def tlaps(module, tag, timeout=900):
+    """check spec/proof/<module>.tla with tlapm; returns {"obligations": n, "discharged": n}; Infra on any unproved obligation"""
+    d = scratch(tag)
+    try:
+        shutil.copy(os.path.join(SPEC, "proof", module + ".tla"), d)
+        try:
+            r = subprocess.run(["tlapm", "--threads", str(NCPU), "--cleanfp", module + ".tla"], cwd=d, capture_output=True, text=True, timeout=timeout)
+        except subprocess.TimeoutExpired:
+            raise Infra("tlapm timeout on " + module)
+        out = r.stdout + r.stderr
+        import re
+        m = re.search(r"All (\d+) obligations? proved", out)
+        if r.returncode != 0 or not m:
+            raise Infra("tlapm did not prove %s:\n%s" % (module, out[-2000:]))
+        n = int(m.group(1))
+        return {"obligations": n, "discharged": n, "checker_cmd": "tlapm --threads %d --cleanfp %s.tla" % (NCPU, module)}
+    finally:
+        shutil.rmtree(d, ignore_errors=True)
